@@ -65,9 +65,16 @@ def run(c):
         "PLAIN (with / without initial response, authorization identity empty / equal / different), LOGIN, LOGIN while disabled, an unknown mechanism x 1-3 scripted "
         "providers each accepting or failing with any error tree (temporary / permanent / unclassified, annotated or not, internal texts) x auth_map hit / miss / lookup "
         "failure x normalisation failure, the final reply read from the wire; "
+        "messages with 2-4 recipients through the REAL queue whose failures in ONE attempt have the same Error() text and differ in class / basic code / enhanced "
+        "code / Go type / wrappers (three families: reply text, text of the cause, DNS error text; every (retried, not retried) pair in both envelope orders, triples in "
+        "all six orders, attempt bound 1-4, restarts), the record of EACH recipient read from the .meta file and from its own group of the report; "
+        "target.smtp / target.lmtp configured by the real `auth` directive (plain / forward with and without client credentials / external / off), the AUTH command "
+        "answered by the scripted next hop with 235, every reply class (535 5.7.8, 454 4.7.0, without enhanced code, 552, a 2xx that is not 235, incoherent ones), a dropped "
+        "connection, garbage, an unexpected challenge; "
         "distinct = distinct op lines",
         explanation="theorems over all error trees, all client errors, all lists of per-MX / per-endpoint outcomes, all histories of attempts (any length, any attempt "
-        "bound, any starting state), all lists of stored errors in a report, all ways a limit refuses a message, all AUTH scripts (any number of providers, any "
+        "bound, any starting state), all lists of stored errors in a report, all envelopes of recipients in one attempt (the record of a recipient is a function of its own error only), "
+        "all auth configurations x answers to AUTH of a downstream, all ways a limit refuses a message, all AUTH scripts (any number of providers, any "
         "error values: the reply is a function of which steps failed only) + decide over the regenerated literal table; "
         "model tied to the code by differential runs (the real error values are abstracted into model terms node by node and compared)",
         search=search,
